@@ -239,14 +239,14 @@ attribute [local instance] mulVecHMul smatMul
 `SMat.isZero`, any inverse routine `invS` — the driver passes `SMat.inverse`) **solves the block system.**  The run is
 mapped entrywise by `SMat.toMatrix` onto the run at `Matrix (Fin b) (Fin b) K` (`Skyline.factorize_map`, `solve_map`,
 `build_mapVal`), to which `skyline_block_solve_matrix` applies; `invS` acts on matrices as
-`m ↦ (invS (ofMatrix m)).toMatrix`.  Hypotheses on the input: the stored blocks are well-formed buffers (`b·b` entries). -/
+`m ↦ (invS (ofMatrix m)).toMatrix`.  Hypotheses on the input: the stored blocks are well-formed buffers (`b·b` entries);
+on the run: `PivotsOKS` — `invS` returns a right inverse (as matrices) of `D[0]` and of every pivot candidate met. -/
 theorem skyline_block_solve_smat [Ring K] [DecidableEq K] (invS : SMat K b b → SMat K b b)
     (A : CRS (SMat K b b)) (perm : Array Nat) (S : Skyline (SMat K b b) (SMat K b 1))
     (hn : 1 ≤ A.nrows) (hsq : A.ncols = A.nrows) (hwf : A.WF) (hnd : ∀ i, ((A.row i).map (·.1)).Nodup)
     (hp : PermOn A.nrows perm) (hblk : ∀ i, ∀ cv ∈ A.row i, cv.2.WF)
     (h : factorize SMat.isZero invS (build (R := SMat K b 1) SMat.isZero A perm) = .ok S)
-    (hpi : PivotsOK (fun v => decide (v = 0)) (fun m => (invS (ofMatrix m)).toMatrix)
-      (build (R := Fin b → K) (fun v => decide (v = 0)) (A.mapVal SMat.toMatrix) perm))
+    (hpiS : PivotsOKS invS (build (R := SMat K b 1) SMat.isZero A perm))
     (rhs x : Array (SMat K b 1)) (hx : x.size = A.nrows) :
     ∀ r, r < A.nrows →
       ∑ c ∈ range A.nrows, (A.get r c).toMatrix.mulVec (toVec ((solve S rhs x).1.getD c 0)) = toVec (rhs.getD r 0) := by
@@ -257,6 +257,10 @@ theorem skyline_block_solve_smat [Ring K] [DecidableEq K] (invS : SMat K b b →
   have hf := factorize_map toVec opHom_toMatrix (testHom_toMatrix invS) (build (R := SMat K b 1) SMat.isZero A perm)
     (build_D_good (fun a : SMat K b b => a.WF) wf_zero SMat.isZero A perm hblk)
   rw [h] at hf
+  have hpi : PivotsOK (fun v => decide (v = 0)) (fun m => (invS (ofMatrix m)).toMatrix)
+      (build (R := Fin b → K) (fun v => decide (v = 0)) (A.mapVal SMat.toMatrix) perm) := by
+    rw [hb]
+    exact pivotsOK_of_smat invS _ (build_D_good (fun a : SMat K b b => a.WF) wf_zero SMat.isZero A perm hblk) hpiS
   have hmain := skyline_block_solve_matrix (fun m => (invS (ofMatrix m)).toMatrix) (A.mapVal SMat.toMatrix) perm
     (S.map SMat.toMatrix toVec) (by rw [nrows_mapVal]; exact hn) (by rw [nrows_mapVal]; exact hsq)
     (wf_mapVal _ A hwf) (nodup_mapVal _ A hnd) (by rw [nrows_mapVal]; exact hp) (by rw [hb]; exact hf) hpi
@@ -269,6 +273,13 @@ theorem skyline_block_solve_smat [Ring K] [DecidableEq K] (invS : SMat K b b →
   apply Finset.sum_congr rfl
   intro c _
   rw [get_mapVal SMat.toMatrix SMatNC.toMatrix_zero (fun a c => SMatNC.toMatrix_add a c), getD_map toVec toVec_zero]
+
+/-- non-vacuity at the driver's carrier: the blocks of `exAB` as buffers, `x` and `y` arbitrary -/
+example : ∀ r, r < 2 → ∑ c ∈ range 2,
+    (exAS.get r c).toMatrix.mulVec (toVec ((solve exFacS #[⟨#[1, 2]⟩, ⟨#[3, 4]⟩] #[⟨#[9, 9]⟩, ⟨#[9, 9]⟩]).1.getD c 0))
+      = toVec ((#[⟨#[1, 2]⟩, ⟨#[3, 4]⟩] : Array (SMat ℤ 2 1)).getD r 0) :=
+  skyline_block_solve_smat invS2 exAS #[0, 1] exFacS (by decide) rfl exAS_wf exAS_nodup exB_perm exAS_blocks
+    exS_factorize exS_pivotsOK #[⟨#[1, 2]⟩, ⟨#[3, 4]⟩] #[⟨#[9, 9]⟩, ⟨#[9, 9]⟩] rfl
 
 end smat
 
